@@ -1,14 +1,628 @@
+(* C01, send direction: every byte the stack puts on the wire is the right byte at the right place.
+   Trace-level theorems over Model.Tcp.step / run / run_out (all event lists):
+     snd_emits_slices      every emitted segment that carries data carries exactly the bytes
+                           W[off, off+len) at sequence number seq_of iss off, W = everything the
+                           application's writes were accepted for (before or after the emission)
+     fin_after_all_data    a FIN segment is empty and sits at seq_of iss |W|, W = everything accepted
+                           before the shutdown; no data frame reaches beyond it
+     no_write_after_shutdown   once the write side is shut down no byte is accepted any more
+   Invariant: Proofs/TcpSndInvP.v (Inv); sender functions: Proofs/TcpSndLoopP.v.
+   Hypotheses: the initial state satisfies Inv (Inv_init: a freshly established connection does),
+   acknowledgment numbers are uint32 (they are, in Go: seqnum.Value), and fewer than 2^30 bytes are
+   written in total (so that the wrap-around comparisons LessThan/InRange of the code agree with
+   the order on stream offsets). *)
 From Coq Require Import ZArith List Bool Lia ZifyBool.
 From RecordUpdate Require Import RecordSet.
-From NP Require Import Model.Seqnum Model.GoHeap Model.Tcp Proofs.SeqnumP.
+From NP Require Import Model.Seqnum Model.GoHeap Model.Tcp Proofs.SeqnumP Proofs.TcpSndInvP Proofs.TcpSndLoopP.
 Import ListNotations RecordSetNotations.
 Open Scope Z_scope.
 
-Lemma test1 (s : sndr) c : sndUna (s <| cwnd := c |>) = sndUna s.
-Proof. cbn. reflexivity. Qed.
+#[local] Arguments sendSegment : simpl never.
+#[local] Arguments sendAck : simpl never.
+#[local] Arguments sendLoop : simpl never.
+#[local] Arguments sendData : simpl never.
+#[local] Arguments sndHandle : simpl never.
+#[local] Arguments rcvHandle : simpl never.
+#[local] Arguments loopExit : simpl never.
+#[local] Arguments resetConnection : simpl never.
+#[local] Arguments nonZeroWindow : simpl never.
+#[local] Arguments rtoExpired : simpl never.
 
-Lemma test2 (t : tcp) d fl sq : SN (sendSegment t d fl sq) = (SN t) <| maxSentAck := rcvNxt (RC t) |>.
-Proof. unfold sendSegment, getSendParams. cbn. reflexivity. Qed.
+(* ------------------------------------------------------------------ specification side *)
 
-Lemma test3 (t : tcp) d fl sq : exists ak wnd, out (sendSegment t d fl sq) = out t ++ [mkF sq ak fl wnd d].
-Proof. unfold sendSegment, getSendParams. cbn. eauto. Qed.
+(* the bytes an application call was accepted for *)
+Definition accepted (e : event) (r : result) : list Z :=
+  match e, r with
+  | EWrite d, RCount n => firstn (Z.to_nat n) d
+  | _, _ => []
+  end.
+
+(* everything accepted along a run *)
+Fixpoint written (t : tcp) (es : list event) : list Z :=
+  match es with
+  | [] => []
+  | e :: r => accepted e (snd (step t e)) ++ written (fst (step t e)) r
+  end.
+
+(* inputs are well typed: acknowledgment numbers are uint32 *)
+Definition ev_ok (e : event) : Prop :=
+  match e with ESeg s _ => is_u32 (s_ack s) | _ => True end.
+
+Section Trace.
+Variable iss : Z.
+Notation Inv := (Inv iss).
+Notation InvA := (InvA iss).
+Notation good_frame := (good_frame iss).
+Notation Ext := (Ext iss).
+Notation Keeps := (Keeps iss).
+Notation seq_of := (seq_of iss).
+
+Definition Emits (W : list Z) (fin : bool) (t t' : tcp) : Prop :=
+  exists fs, out t' = out t ++ fs /\ Forall (good_frame W fin) fs.
+
+Lemma Ext_Emits W fin t t' : Ext W fin t t' -> Emits W fin t t'.
+Proof. intros [_ H]. exact H. Qed.
+Lemma Ext_closed W fin t t' : Ext W fin t t' -> sndClosedE t' = sndClosedE t.
+Proof. intros [H _]. exact H. Qed.
+Lemma Keeps_Ext W fin t t' : Keeps t t' -> Ext W fin t t'.
+Proof. intros [_ H]. apply H. Qed.
+Lemma Inv_of_InvA W t a n : InvA W (sndClosedE t) a n (SN t) -> Inv W t.
+Proof. intros H. exists a, n. exact H. Qed.
+
+(* ------------------------------------------------------------------ application write *)
+
+Lemma appWrite_ok W t data idle t' n :
+  Inv W t -> appWrite t data idle = (t', n) ->
+  let acc := if n <? 0 then [] else firstn (Z.to_nat n) data in
+  len (W ++ acc) < BOUND ->
+  Inv (W ++ acc) t' /\ Ext (W ++ acc) (sndClosedE t) t t' /\ (sndClosedE t = true -> acc = []).
+Proof.
+  intros HI. unfold appWrite.
+  assert (TRIV : forall k, (k <? 0) = true \/ k = 0 -> (t, k) = (t', n) ->
+    let acc := if n <? 0 then [] else firstn (Z.to_nat n) data in
+    len (W ++ acc) < BOUND ->
+    Inv (W ++ acc) t' /\ Ext (W ++ acc) (sndClosedE t) t t' /\ (sndClosedE t = true -> acc = [])).
+  { intros k Hk E. inversion E; subst t' n. cbv zeta.
+    assert (EA : (if k <? 0 then [] else firstn (Z.to_nat k) data) = []).
+    { destruct Hk as [->| ->]; reflexivity. }
+    rewrite EA, app_nil_r. intros _. split; [exact HI|]. split; [apply Ext_refl|reflexivity]. }
+  destruct (estate t =? stError); [apply TRIV; left; reflexivity|].
+  destruct (negb (estate t =? stConnected)); [apply TRIV; left; reflexivity|].
+  destruct (len data =? 0) eqn:EL; [apply TRIV; right; reflexivity|].
+  destruct (sndClosedE t) eqn:EC; [apply TRIV; left; reflexivity|].
+  destruct (sndBufSize t - sndBufUsed t <=? 0) eqn:EAv; [apply TRIV; left; reflexivity|].
+  cbv zeta. intros E. inversion E as [[E1 E2]]. clear E.
+  set (v := takeZ (sndBufSize t - sndBufUsed t) data) in *.
+  pose proof (len_nonneg v) as Hvn. replace (len v <? 0) with false by lia.
+  assert (EV : firstn (Z.to_nat (len v)) data = v) by apply takeZ_len_self.
+  rewrite EV.
+  assert (Hv : v <> []).
+  { apply takeZ_nonnil; [lia|]. intros ->. discriminate. }
+  intros HB.
+  destruct HI as (a & n0 & HI). rewrite EC in HI.
+  match goal with |- context [sendData ?t1 idle] => set (T1 := t1) end.
+  assert (H1 : InvA (W ++ v) false a n0 (SN T1)).
+  { subst T1. unfold TcpSndInvP.InvA in *. cbn.
+    destruct HI as (m & e & fl & nu & fr & H1 & H2 & H3 & H4 & H5 & H6 & H7 & H8 & H9 & H10 & H11 & H12 & H13 & H14 & H15 & H16).
+    exists m, e, fl, nu, (fr ++ [mkW 0 0 v]). rewrite H5, <- app_assoc.
+    repeat split; auto using chain_mono, fresh_write.
+    rewrite H3, seq_of_add. unfold total. rewrite len_app. f_equal.
+    rewrite u32_small; [lia|]. rewrite len_app in HB. unfold BOUND in HB.
+    change (2^30) with 1073741824 in HB. pose proof (len_nonneg W). lia. }
+  destruct (sendData_ok iss (W ++ v) false T1 idle a n0 H1) as (n' & Hn' & H2 & X2).
+  assert (X1 : Ext (W ++ v) false t T1) by (apply Ext_pure; reflexivity).
+  split; [|split].
+  - exists a, n'. rewrite (Ext_closed _ _ _ _ X2).
+    assert (CT : sndClosedE T1 = false) by exact EC. rewrite CT. exact H2.
+  - eapply Ext_trans; eauto.
+  - discriminate.
+Qed.
+
+(* ------------------------------------------------------------------ shutdown of the write side *)
+
+Lemma appShutdownWrite_ok W t idle :
+  Inv W t ->
+  let t' := fst (appShutdownWrite t idle) in
+  Inv W t' /\ Emits W (sndClosedE t') t t' /\ (sndClosedE t = true -> sndClosedE t' = true).
+Proof.
+  intros HI. unfold appShutdownWrite.
+  destruct (negb (estate t =? stConnected)).
+  { cbn. split; [exact HI|]. split; [apply Ext_Emits, Ext_refl|auto]. }
+  destruct (sndClosedE t) eqn:EC.
+  { cbn. rewrite EC. split; [exact HI|]. split; [apply Ext_Emits, Ext_refl|auto]. }
+  cbv zeta. cbn [fst].
+  destruct HI as (a & n0 & HI). rewrite EC in HI.
+  match goal with |- context [sendData ?t1 idle] => set (T1 := t1) end.
+  assert (H1 : InvA W true a n0 (SN T1)).
+  { subst T1. unfold TcpSndInvP.InvA in *. cbn.
+    destruct HI as (m & e & fl & nu & fr & H1 & H2 & H3 & H4 & H5 & H6 & H7 & H8 & H9 & H10 & H11 & H12 & H13 & H14 & H15 & H16).
+    exists m, e, fl, nu, (fr ++ [mkW 0 0 []]). rewrite H5, <- app_assoc.
+    repeat split; auto using chain_shut, fresh_shut.
+    rewrite H3, seq_of_add. unfold total. f_equal. lia. }
+  destruct (sendData_ok iss W true T1 idle a n0 H1) as (n' & Hn' & H2 & X2).
+  assert (C2 : sndClosedE (sendData T1 idle) = true) by (rewrite (Ext_closed _ _ _ _ X2); reflexivity).
+  set (t2 := sendData T1 idle) in *. clearbody t2.
+  pose proof (loopExit_Keeps iss (t2 <| SN := (SN t2) <| sclosed := true |> |>)) as K.
+  set (t3 := loopExit _) in *. clearbody t3.
+  assert (K0 : Keeps t2 (t2 <| SN := (SN t2) <| sclosed := true |> |>)).
+  { apply Keeps_pure; cbn; [unfold core_eq; cbn; repeat split|reflexivity|reflexivity]. }
+  pose proof (Keeps_trans _ _ _ _ K0 K) as K1.
+  assert (C3 : sndClosedE t3 = true) by (rewrite (Ext_closed W true _ _ (Keeps_Ext _ _ _ _ K1)); exact C2).
+  rewrite C3. split; [|split; [|auto]].
+  - eapply Inv_Keeps; [exact K1|]. exists a, n'. rewrite C2. exact H2.
+  - apply Ext_Emits in X2. destruct X2 as (f2 & O2 & G2).
+    destruct (Keeps_Ext W true _ _ K1) as [_ (f3 & O3 & G3)].
+    exists (f2 ++ f3). split; [|apply Forall_app; auto].
+    rewrite O3, O2. subst T1. cbn. rewrite app_assoc. reflexivity.
+Qed.
+
+(* ------------------------------------------------------------------ an arriving segment *)
+
+Lemma handleSegment_ok W t sg newRto idle :
+  Inv W t -> is_u32 (s_ack sg) ->
+  Inv W (handleSegment t sg newRto idle) /\ Ext W (sndClosedE t) t (handleSegment t sg newRto idle).
+Proof.
+  intros HI Hu. unfold handleSegment.
+  destruct (negb (estate t =? stConnected)); [split; [exact HI|apply Ext_refl]|].
+  assert (TAIL : forall t1, Inv W t1 -> Ext W (sndClosedE t) t t1 ->
+    let t2 := if negb (rcvNxt (RC t1) =? maxSentAck (SN t1)) then sendAck t1 else t1 in
+    Inv W (loopExit t2) /\ Ext W (sndClosedE t) t (loopExit t2)).
+  { intros t1 H1 X1. cbv zeta.
+    pose proof (Keeps_trans iss _ _ _ (maybeAck_Keeps iss t1) (loopExit_Keeps iss _)) as K.
+    split; [eapply Inv_Keeps; eauto|]. eapply Ext_trans; [exact X1|apply Keeps_Ext, K]. }
+  destruct (has (s_flags sg) fRst).
+  { destruct (acceptable _ _ _).
+    - split; [eapply Inv_Keeps; [apply resetConnection_Keeps|exact HI]|].
+      apply Keeps_Ext, resetConnection_Keeps.
+    - apply TAIL; [exact HI|apply Ext_refl]. }
+  apply TAIL.
+  - destruct (has (s_flags sg) fAck); [|exact HI].
+    destruct (tsOk t && negb (s_ts sg)); [exact HI|].
+    pose proof (rcvHandle_Keeps iss t sg) as K. pose proof (Inv_Keeps iss W _ _ K HI) as (a & n & H0).
+    destruct (sndHandle_ok iss W _ (rcvHandle t sg) sg
+                (u32 (Z.shiftl (s_wnd sg) (sndWndScale (SN t)))) newRto idle a n H0 Hu) as (a' & n' & H1 & X1).
+    exists a', n'. rewrite (Ext_closed _ _ _ _ X1). exact H1.
+  - destruct (has (s_flags sg) fAck); [|apply Ext_refl].
+    destruct (tsOk t && negb (s_ts sg)); [apply Ext_refl|].
+    pose proof (rcvHandle_Keeps iss t sg) as K. pose proof (Inv_Keeps iss W _ _ K HI) as (a & n & H0).
+    destruct (sndHandle_ok iss W _ (rcvHandle t sg) sg
+                (u32 (Z.shiftl (s_wnd sg) (sndWndScale (SN t)))) newRto idle a n H0 Hu) as (a' & n' & H1 & X1).
+    pose proof (Keeps_Ext W (sndClosedE t) _ _ K) as X0.
+    rewrite (Ext_closed _ _ _ _ X0) in X1. eapply Ext_trans; eauto.
+Qed.
+
+(* ------------------------------------------------------------------ application read *)
+
+Lemma appRead_Keeps t : Keeps t (fst (fst (appRead t))).
+Proof.
+  unfold appRead.
+  destruct (_ && _); [apply Keeps_refl|].
+  destruct (rcvBufUsed t =? 0); [apply Keeps_refl|].
+  destruct (rcvList t) as [|v rest]; [apply Keeps_refl|]. cbv zeta. cbn [fst].
+  set (t1 := t <| rcvList := rest |> <| rcvBufUsed := rcvBufUsed t - len v |>).
+  assert (K1 : Keeps t t1).
+  { subst t1. apply Keeps_pure; cbn; [apply core_eq_refl|reflexivity|reflexivity]. }
+  clearbody t1.
+  destruct (_ && _); [|exact K1].
+  eapply Keeps_trans; [exact K1|]. eapply Keeps_trans; [apply nonZeroWindow_Keeps|apply loopExit_Keeps].
+Qed.
+
+(* ------------------------------------------------------------------ one event *)
+
+Lemma Emits_nil W fin t t' : out t = [] -> Emits W fin t t' -> Forall (good_frame W fin) (out t').
+Proof. intros E (fs & O & G). rewrite O, E. exact G. Qed.
+
+Lemma Inv_out W t o : Inv W t -> Inv W (t <| out := o |>).
+Proof. intros H. exact H. Qed.
+
+Lemma step_ok W t e :
+  Inv W t -> ev_ok e ->
+  let t' := fst (step t e) in
+  let W' := W ++ accepted e (snd (step t e)) in
+  len W' < BOUND ->
+  Inv W' t' /\ Forall (good_frame W' (sndClosedE t')) (out t') /\
+  (sndClosedE t = true -> sndClosedE t' = true /\ accepted e (snd (step t e)) = []).
+Proof.
+  intros HI He. pose proof (Inv_out W t [] HI) as HI0.
+  set (t0 := t <| out := [] |>) in HI0.
+  assert (O0 : out t0 = []) by reflexivity.
+  assert (C0 : sndClosedE t0 = sndClosedE t) by reflexivity.
+  destruct e as [sg newRto|data| | |]; unfold step; fold t0; cbv zeta.
+  - (* segment *)
+    cbn [fst snd accepted]. rewrite app_nil_r. intros _.
+    destruct (handleSegment_ok W t0 sg newRto false HI0 He) as (H1 & X1).
+    rewrite (Ext_closed _ _ _ _ X1). split; [exact H1|]. split.
+    + eapply Emits_nil; [exact O0|apply Ext_Emits, X1].
+    + rewrite C0. auto.
+  - (* write *)
+    destruct (appWrite t0 data false) as [t1 n] eqn:EW.
+    pose proof (appWrite_ok W t0 data false t1 n HI0 EW) as H. cbv zeta in H.
+    cbn [fst snd].
+    assert (EA : accepted (EWrite data) (if n <? 0 then RErr n else RCount n) =
+                 (if n <? 0 then [] else firstn (Z.to_nat n) data)).
+    { destruct (n <? 0); reflexivity. }
+    rewrite EA. intros HB. destruct (H HB) as (H1 & X1 & H3).
+    rewrite (Ext_closed _ _ _ _ X1). split; [exact H1|]. split.
+    + eapply Emits_nil; [exact O0|apply Ext_Emits, X1].
+    + rewrite C0. auto.
+  - (* read *)
+    pose proof (appRead_Keeps t0) as K.
+    destruct (appRead t0) as [[t1 v] err]. cbn [fst snd] in *.
+    assert (EA : accepted ERead match v with Some b => RBytes b | None => RErr err end = []) by reflexivity.
+    rewrite EA, app_nil_r. intros _.
+    pose proof (Keeps_Ext W (sndClosedE t0) _ _ K) as X1.
+    rewrite (Ext_closed _ _ _ _ X1). split; [eapply Inv_Keeps; eauto|]. split.
+    + eapply Emits_nil; [exact O0|apply Ext_Emits, X1].
+    + rewrite C0. auto.
+  - (* shutdown *)
+    pose proof (appShutdownWrite_ok W t0 false HI0) as H. cbv zeta in H.
+    destruct (appShutdownWrite t0 false) as [t1 n]. cbn [fst snd] in *.
+    assert (EA : accepted EShutW (if n <? 0 then RErr n else RCount n) = []) by reflexivity.
+    rewrite EA, app_nil_r. intros _. destruct H as (H1 & X1 & H3).
+    split; [exact H1|]. split.
+    + eapply Emits_nil; [exact O0|exact X1].
+    + rewrite <- C0. auto.
+  - (* retransmission timer *)
+    destruct (negb (estate t0 =? stConnected)).
+    { cbn [fst snd accepted]. rewrite app_nil_r. intros _. split; [exact HI0|]. split.
+      - rewrite O0. constructor.
+      - auto. }
+    destruct HI0 as (a & n & HA).
+    destruct (rtoExpired_ok iss W _ t0 false a n HA) as (n' & H1 & X1).
+    destruct (rtoExpired t0 false) as [t1 alive]. cbn [fst snd accepted] in *.
+    rewrite app_nil_r. intros _.
+    assert (HI1 : Inv W t1) by (exists a, n'; rewrite (Ext_closed _ _ _ _ X1); exact H1).
+    assert (K : Keeps t1 (if alive then loopExit t1 else resetConnection t1)).
+    { destruct alive; [apply loopExit_Keeps|apply resetConnection_Keeps]. }
+    pose proof (Ext_trans iss _ _ _ _ _ X1 (Keeps_Ext W (sndClosedE t0) _ _ K)) as X2.
+    rewrite (Ext_closed _ _ _ _ X2). split; [eapply Inv_Keeps; eauto|]. split.
+    + eapply Emits_nil; [exact O0|apply Ext_Emits, X2].
+    + rewrite C0. auto.
+Qed.
+
+(* ------------------------------------------------------------------ all runs *)
+
+Lemma run_cons t e r : run t (e :: r) = run (fst (step t e)) r.
+Proof. reflexivity. Qed.
+
+Lemma closed_stays : forall es W t,
+  Inv W t -> Forall ev_ok es -> sndClosedE t = true ->
+  written t es = [] /\ sndClosedE (run t es) = true.
+Proof.
+  induction es as [|e r IH]; intros W t HI Hes HC; [split; [reflexivity|exact HC]|].
+  inversion Hes as [|e' r' He Hr]; subst.
+  pose proof (step_ok W t e HI He) as H. cbv zeta in H.
+  assert (HB : len W < BOUND).
+  { destruct HI as (a & n & HA). apply InvA_facts in HA. tauto. }
+  assert (EA : accepted e (snd (step t e)) = []).
+  { destruct e as [sg newRto|data| | |]; try reflexivity.
+    (* a write on a closed endpoint: decided by appWrite alone *)
+    unfold step. cbv zeta. unfold appWrite. cbn [sndClosedE set]. cbn.
+    destruct (estate t =? stError); [reflexivity|].
+    destruct (negb (estate t =? stConnected)); [reflexivity|].
+    destruct (len data =? 0); [reflexivity|]. rewrite HC. reflexivity. }
+  rewrite EA, app_nil_r in H. destruct (H HB) as (H1 & _ & H3). destruct (H3 HC) as [C1 _].
+  destruct (IH W _ H1 Hr C1) as [W1 C2].
+  cbn [written]. rewrite EA, W1, run_cons. auto.
+Qed.
+
+Lemma run_ok : forall es W t,
+  Inv W t -> Forall ev_ok es -> len (W ++ written t es) < BOUND ->
+  Inv (W ++ written t es) (run t es) /\
+  Forall (good_frame (W ++ written t es) (sndClosedE (run t es))) (run_out t es).
+Proof.
+  induction es as [|e r IH]; intros W t HI Hes HB.
+  { cbn. rewrite app_nil_r. split; [exact HI|constructor]. }
+  inversion Hes as [|e' r' He Hr]; subst.
+  cbn [written run_out] in *. rewrite run_cons. rewrite app_assoc in *.
+  set (acc := accepted e (snd (step t e))) in *. set (t1 := fst (step t e)) in *.
+  pose proof (step_ok W t e HI He) as H. cbv zeta in H. fold acc t1 in H.
+  assert (HB1 : len (W ++ acc) < BOUND).
+  { rewrite len_app in HB. pose proof (len_nonneg (written t1 r)). lia. }
+  destruct (H HB1) as (H1 & G1 & _).
+  destruct (IH (W ++ acc) t1 H1 Hr HB) as (H2 & G2).
+  split; [exact H2|]. apply Forall_app. split; [|exact G2].
+  eapply Forall_impl; [|exact G1]. intros f Gf. eapply good_frame_mono; [exact Gf|].
+  intros HC. apply (closed_stays r (W ++ acc) t1 H1 Hr HC).
+Qed.
+
+(* ------------------------------------------------------------------ a freshly established connection *)
+
+Theorem Inv_init t :
+  wsent (SN t) = [] -> wunsent (SN t) = [] ->
+  sndUna (SN t) = u32 (iss + 1) -> sndNxt (SN t) = u32 (iss + 1) -> sndNxtList (SN t) = u32 (iss + 1) ->
+  frLast (SN t) = u32 iss -> 1 <= maxPayload (SN t) -> sndClosedE t = false ->
+  Inv [] t.
+Proof.
+  intros E1 E2 E3 E4 E5 E6 E7 E8. exists 0, 0. rewrite E8.
+  unfold TcpSndInvP.InvA, InvC. rewrite E1, E2, E3, E4, E5, E6.
+  exists 0, 0, (-1), [], []. unfold total, SeqnumP.seq_of, BOUND. cbn [len length Z.of_nat].
+  repeat split; try lia; try apply ch_nil; try (f_equal; lia).
+  change 0 with (total [] false). apply fr_nil.
+Qed.
+
+End Trace.
+
+(* ------------------------------------------------------------------ a non-trivial run satisfying the hypotheses *)
+
+(* iss = 1000, MSS 10, peer window 25: write 3*MSS+7 bytes (split at MSS and at the window edge),
+   an ACK in the middle of the second segment, three duplicate ACKs (fast retransmit of the trimmed
+   segment), a time-out (rewind and retransmission), another partial ACK, shutdown, the remaining
+   ACKs, a time-out retransmission of the FIN, and a write after the shutdown (refused). *)
+Definition ex_t0 : tcp :=
+  mkTcp (mkRcvr 5001 70536 0 false [] 0 65536)
+        (mkSndr 0 false 0 1000 0 10 maxInt 0 0 25 1001 1001 1001 false [] [] 0 1000000000 10 0 5001 1001)
+        [] 0 65536 false 65536 0 false 0 false [].
+Definition ex_W : list Z := map Z.of_nat (seq 100 37).
+Definition ackseg (ack wnd : Z) : seg := mkSeg 5001 ack fAck wnd [] false false.
+Definition ex_es : list event :=
+  [ EWrite ex_W; ESeg (ackseg 1016 30) 0;
+    ESeg (ackseg 1016 30) 0; ESeg (ackseg 1016 30) 0; ESeg (ackseg 1016 30) 0;
+    ERto; ESeg (ackseg 1018 30) 0; EShutW;
+    ESeg (ackseg 1026 100) 0; ESeg (ackseg 1038 100) 0; ERto; ESeg (ackseg 1039 100) 0; EWrite [1;2;3] ].
+
+Lemma ex_Inv : Inv 1000 [] ex_t0.
+Proof. apply Inv_init; try reflexivity; cbn; lia. Qed.
+
+Lemma ex_ev_ok : forall es, (forall e, In e es -> match e with ESeg s _ => 0 <= s_ack s < 4294967296 | _ => True end) ->
+  Forall ev_ok es.
+Proof.
+  intros es H. apply Forall_forall. intros e He. specialize (H e He).
+  destruct e; cbn; auto; unfold is_u32; consts; exact H.
+Qed.
+
+Example ex_run :
+  Inv 1000 [] ex_t0 /\ Forall ev_ok ex_es /\
+  written ex_t0 ex_es = ex_W /\ len ([] ++ written ex_t0 ex_es) < 2^30 /\
+  map (fun f => (f_seq f, f_flags f, f_data f)) (run_out ex_t0 ex_es) =
+    [(1001, 24, map Z.of_nat (seq 100 10)); (1011, 24, map Z.of_nat (seq 110 10));
+     (1021, 24, map Z.of_nat (seq 120 5));                     (* split at the window edge *)
+     (1026, 24, map Z.of_nat (seq 125 10)); (1036, 24, map Z.of_nat (seq 135 2));
+     (1016, 24, map Z.of_nat (seq 115 5));                     (* fast retransmit after the partial ack *)
+     (1016, 24, map Z.of_nat (seq 115 5));                     (* time-out retransmission *)
+     (1026, 24, map Z.of_nat (seq 125 10)); (1036, 24, map Z.of_nat (seq 135 2));
+     (1038, 17, []); (1038, 17, [])].                          (* FIN at iss+1+37, and its retransmission *)
+Proof.
+  split; [exact ex_Inv|]. split.
+  { apply ex_ev_ok. intros e He. cbn in He.
+    repeat (destruct He as [<-|He]; [cbn; try lia; exact I|]). destruct He. }
+  split; [vm_compute; reflexivity|]. split; [vm_compute; reflexivity|].
+  vm_compute. reflexivity.
+Qed.
+
+(* ------------------------------------------------------------------ the defect that was fixed in /repo *)
+
+(* the ack loop as it was before "fix: partial ACK trims segment data without advancing its
+   sequence number": the partial-trim branches keep w_seq *)
+Fixpoint ackLoop_old (fuel : nat) (sent unsent : list wseg) (ackLeft removed : Z) : list wseg * list wseg * Z :=
+  match fuel with
+  | O => (sent, unsent, removed)
+  | S f =>
+      if negb (0 <? ackLeft) then (sent, unsent, removed) else
+      match sent, unsent with
+      | w :: sent', _ =>
+          let dl := wlogicalLen w in
+          if ackLeft <? dl then
+            (mkW (w_seq w) (w_flags w) (dropZ ackLeft (w_data w)) :: sent', unsent, removed)
+          else ackLoop_old f sent' unsent (u32 (ackLeft - dl)) (removed + 1)
+      | [], w :: unsent' =>
+          let dl := wlogicalLen w in
+          if ackLeft <? dl then
+            ([], mkW (w_seq w) (w_flags w) (dropZ ackLeft (w_data w)) :: unsent', removed)
+          else ackLoop_old f [] unsent' (u32 (ackLeft - dl)) (removed + 1)
+      | [], [] => (sent, unsent, removed)
+      end
+  end.
+
+(* sndHandle / handleSegment / step / run_out with ackLoop_old in place of ackLoop, otherwise verbatim *)
+Definition sndHandle_old (t : tcp) (sg : seg) (wnd : Z) (newRto : Z) (idle : bool) : tcp :=
+  let s0 := SN t in
+  let clampRto := if newRto <? minRTO then minRTO else newRto in
+  let s1 := if negb (tsOk t) && lessThan (rttSeq s0) (s_ack sg)
+            then s0 <| rto := clampRto |> <| rttSeq := sndNxt s0 |> else s0 in
+  let segLog := plogicalLen (s_flags sg) (s_data sg) in
+  let '(s2, rtx) := checkDuplicateAck s1 (s_ack sg) segLog wnd in
+  let s3 := s2 <| sndWnd := wnd |> in
+  let ack := s_ack sg in
+  let t3 := t <| SN := s3 |> in
+  let t4 :=
+    if inRange (u32 (ack - 1)) (sndUna s3) (sndNxt s3) then
+      let s4 := s3 <| dupAck := 0 |> <| tstate := if tstate s3 =? tDisabled then tDisabled else tOrphaned |> in
+      let s5 := if tsOk t && s_tsecr sg then s4 <| rto := clampRto |> else s4 in
+      let acked := size (sndUna s5) ack in
+      let '(sent', unsent', removed) :=
+        ackLoop_old (S (length (wsent s5) + length (wunsent s5))) (wsent s5) (wunsent s5) acked 0 in
+      let s6 := s5 <| sndUna := ack |> <| wsent := sent' |> <| wunsent := unsent' |>
+                   <| outstanding := outstanding s5 - removed |> in
+      let s7 := if frActive s6 then s6 else renoUpdate s6 removed in
+      let s8 := if outstanding s7 <? 0 then s7 <| outstanding := 0 |> else s7 in
+      t3 <| SN := s8 |> <| sndBufUsed := sndBufUsed t3 - acked |>
+    else t3 in
+  let t5 := if rtx then resendSegment t4 else t4 in
+  sendData t5 idle.
+
+Definition handleSegment_old (t : tcp) (sg : seg) (newRto : Z) (idle : bool) : tcp :=
+  if negb (estate t =? stConnected) then t else
+  if has (s_flags sg) fRst then
+    if acceptable (RC t) (s_seq sg) 0 then resetConnection t
+    else
+      let t1 := if negb (rcvNxt (RC t) =? maxSentAck (SN t)) then sendAck t else t in loopExit t1
+  else
+    let t1 :=
+      if has (s_flags sg) fAck then
+        if tsOk t && negb (s_ts sg) then t
+        else
+          let wnd := u32 (Z.shiftl (s_wnd sg) (sndWndScale (SN t))) in
+          sndHandle_old (rcvHandle t sg) sg wnd newRto idle
+      else t in
+    let t2 := if negb (rcvNxt (RC t1) =? maxSentAck (SN t1)) then sendAck t1 else t1 in
+    loopExit t2.
+
+Definition step_old (t0 : tcp) (e : event) : tcp * result :=
+  match e with
+  | ESeg s newRto => (handleSegment_old (t0 <| out := [] |>) s newRto false, RNone)
+  | _ => step t0 e
+  end.
+
+Fixpoint run_out_old (t : tcp) (es : list event) : list frame :=
+  match es with
+  | [] => []
+  | e :: r => let t' := fst (step_old t e) in out t' ++ run_out_old t' r
+  end.
+
+(* Before the fix: write, ACK into the middle of the second segment, time-out.  The retransmitted
+   segment carries bytes 15..19 of the stream under the sequence number of byte 10: it is not a slice
+   of what was written at the offset its sequence number names (for ANY offset with that number).
+   With the repaired ackLoop the same run satisfies snd_emits_slices (frame (1016, W[15,20))). *)
+Lemma snd_partial_ack_refuted :
+  exists t0 es f,
+    Inv 1000 [] t0 /\ Forall ev_ok es /\ len ([] ++ written t0 es) < 2^30 /\
+    In f (run_out_old t0 es) /\ f_data f <> [] /\
+    ~ (exists off, f_seq f = seq_of 1000 off /\ is_slice ([] ++ written t0 es) off (f_data f)).
+Proof.
+  exists ex_t0, [EWrite ex_W; ESeg (ackseg 1016 30) 0; ERto],
+         (mkF 1011 5001 24 65535 (map Z.of_nat (seq 115 5))).
+  split; [exact ex_Inv|]. split.
+  { apply ex_ev_ok. intros e He. cbn in He.
+    repeat (destruct He as [<-|He]; [cbn; try lia; exact I|]). destruct He. }
+  split; [vm_compute; reflexivity|]. split.
+  { vm_compute. do 5 right. left. reflexivity. }
+  split; [discriminate|].
+  intros (off & E & S). apply is_slice_firstn_skipn in S. destruct S as (S0 & S1 & S2).
+  assert (EW : [] ++ written ex_t0 [EWrite ex_W; ESeg (ackseg 1016 30) 0; ERto] = ex_W)
+    by (vm_compute; reflexivity).
+  rewrite EW in S1, S2. cbn [f_seq f_data] in *.
+  change (len (map Z.of_nat (seq 115 5))) with 5 in S1. change (len ex_W) with 37 in S1.
+  assert (off = 10).
+  { unfold SeqnumP.seq_of, u32 in E. change (2^32) with 4294967296 in E.
+    revert E. Z.div_mod_to_equations. lia. }
+  subst off. vm_compute in S2. discriminate.
+Qed.
+
+(* the same three events on the repaired model *)
+Example snd_partial_ack_fixed :
+  map (fun f => (f_seq f, f_data f)) (run_out ex_t0 [EWrite ex_W; ESeg (ackseg 1016 30) 0; ERto]) =
+  [(1001, map Z.of_nat (seq 100 10)); (1011, map Z.of_nat (seq 110 10)); (1021, map Z.of_nat (seq 120 5));
+   (1026, map Z.of_nat (seq 125 10)); (1036, map Z.of_nat (seq 135 2));
+   (1016, map Z.of_nat (seq 115 5))].
+Proof. vm_compute. reflexivity. Qed.
+
+(* ================================================================== FINAL THEOREMS (C01, send direction) *)
+
+Section Final.
+Variable iss : Z.
+Notation Inv := (Inv iss).
+Notation seq_of := (seq_of iss).
+
+(* MAIN: every data-carrying frame ever emitted is the slice of the written stream that its
+   sequence number names. *)
+Theorem snd_emits_slices W0 t0 es :
+  Inv W0 t0 -> Forall ev_ok es -> len (W0 ++ written t0 es) < 2^30 ->
+  forall f, In f (run_out t0 es) -> f_data f <> [] ->
+  exists off, f_seq f = seq_of off /\ is_slice (W0 ++ written t0 es) off (f_data f).
+Proof.
+  intros HI Hes HB f Hf Hd. destruct (run_ok iss es W0 t0 HI Hes HB) as [_ G].
+  rewrite Forall_forall in G. destruct (G f Hf) as [G1 _]. exact (G1 Hd).
+Qed.
+
+(* a frame with the FIN flag carries no data, is numbered |W| (W = everything accepted, all of it
+   before the shutdown) and is only emitted after the application shut the write side down *)
+Theorem fin_after_all_data W0 t0 es :
+  Inv W0 t0 -> Forall ev_ok es -> len (W0 ++ written t0 es) < 2^30 ->
+  forall f, In f (run_out t0 es) -> has (f_flags f) fFin = true ->
+  f_data f = [] /\ f_seq f = seq_of (len (W0 ++ written t0 es)) /\ sndClosedE (run t0 es) = true.
+Proof.
+  intros HI Hes HB f Hf Hd. destruct (run_ok iss es W0 t0 HI Hes HB) as [_ G].
+  rewrite Forall_forall in G. destruct (G f Hf) as [_ G2]. destruct (G2 Hd) as (A & B & C). auto.
+Qed.
+
+(* data frames never carry the FIN flag, and they end at or before the FIN's offset *)
+Theorem data_before_fin W0 t0 es :
+  Inv W0 t0 -> Forall ev_ok es -> len (W0 ++ written t0 es) < 2^30 ->
+  forall g, In g (run_out t0 es) -> f_data g <> [] ->
+  has (f_flags g) fFin = false /\
+  exists off, f_seq g = seq_of off /\ 0 <= off /\ off + len (f_data g) <= len (W0 ++ written t0 es).
+Proof.
+  intros HI Hes HB g Hg Hd. split.
+  - destruct (has (f_flags g) fFin) eqn:E; [|reflexivity].
+    destruct (fin_after_all_data W0 t0 es HI Hes HB g Hg E) as (A & _). congruence.
+  - destruct (snd_emits_slices W0 t0 es HI Hes HB g Hg Hd) as (off & E & S).
+    exists off. apply slice_bounds in S. tauto.
+Qed.
+
+(* after the shutdown nothing is accepted any more: W is final *)
+Theorem no_write_after_shutdown W t es :
+  Inv W t -> Forall ev_ok es -> sndClosedE t = true ->
+  written t es = [] /\ sndClosedE (run t es) = true.
+Proof. apply (closed_stays iss). Qed.
+
+(* ... and every single write is refused *)
+Theorem write_refused_after_shutdown t d :
+  sndClosedE t = true -> exists c, snd (step t (EWrite d)) = RErr c \/ snd (step t (EWrite d)) = RCount 0.
+Proof.
+  intros HC. unfold step. cbv zeta. unfold appWrite. cbn [sndClosedE set]. cbn.
+  destruct (estate t =? stError); [exists (-3); left; reflexivity|].
+  destruct (negb (estate t =? stConnected)); [exists (-1); left; reflexivity|].
+  destruct (len d =? 0); [exists 0; right; reflexivity|]. rewrite HC.
+  exists (-1); left; reflexivity.
+Qed.
+
+(* the shutdown takes effect on a connected endpoint *)
+Theorem shutdown_closes t :
+  estate t = stConnected -> sndClosedE (fst (step t EShutW)) = true.
+Proof.
+  intros HE. pose proof (loopExit_Keeps iss) as LK.
+  unfold step. cbv zeta. unfold appShutdownWrite. cbn [estate set]. cbn. rewrite HE.
+  change (negb (stConnected =? stConnected)) with false. cbn match.
+  destruct (sndClosedE t) eqn:EC; [cbn; exact EC|].
+  cbv zeta.
+  match goal with |- context [loopExit ?x] => set (X := x) end.
+  assert (sndClosedE X = true).
+  { subst X. cbn.
+    match goal with |- context [sendData ?t1 false] =>
+      pose proof (sendData_closed t1 false) as SC end.
+    rewrite SC. reflexivity. }
+  destruct (loopExit X) eqn:EL.
+  destruct (LK X) as [_ K]. destruct (K [] false) as [C _]. rewrite EL in C. cbn in *. congruence.
+Qed.
+
+
+(* a freshly established connection (newSender: sndUna = sndNxt = sndNxtList = iss+1, fr.last = iss,
+   empty write list, mss >= 1, write side open) *)
+Definition established (t : tcp) : Prop :=
+  wsent (SN t) = [] /\ wunsent (SN t) = [] /\
+  sndUna (SN t) = u32 (iss + 1) /\ sndNxt (SN t) = u32 (iss + 1) /\ sndNxtList (SN t) = u32 (iss + 1) /\
+  frLast (SN t) = u32 iss /\ 1 <= maxPayload (SN t) /\ sndClosedE t = false.
+
+Lemma established_Inv t : established t -> Inv [] t.
+Proof. intros (E1 & E2 & E3 & E4 & E5 & E6 & E7 & E8). apply Inv_init; assumption. Qed.
+
+(* the two main theorems from connection establishment on: W is exactly what was written *)
+Theorem snd_emits_slices_established t0 es :
+  established t0 -> Forall ev_ok es -> len (written t0 es) < 2^30 ->
+  forall f, In f (run_out t0 es) -> f_data f <> [] ->
+  exists off, f_seq f = seq_of off /\ is_slice (written t0 es) off (f_data f).
+Proof. intros HE. apply (snd_emits_slices [] t0 es (established_Inv t0 HE)). Qed.
+
+Theorem fin_after_all_data_established t0 es :
+  established t0 -> Forall ev_ok es -> len (written t0 es) < 2^30 ->
+  forall f, In f (run_out t0 es) -> has (f_flags f) fFin = true ->
+  f_data f = [] /\ f_seq f = seq_of (len (written t0 es)) /\ sndClosedE (run t0 es) = true.
+Proof. intros HE. apply (fin_after_all_data [] t0 es (established_Inv t0 HE)). Qed.
+
+(* the same in the form the run-time monitor (Corr/C01.v: spec) checks: the offset is read off the
+   frame's sequence number *)
+Theorem snd_emits_slices_monitor W0 t0 es :
+  Inv W0 t0 -> Forall ev_ok es -> len (W0 ++ written t0 es) < 2^30 ->
+  forall f, In f (run_out t0 es) -> f_data f <> [] ->
+  is_slice (W0 ++ written t0 es) (u32 (f_seq f - iss - 1)) (f_data f).
+Proof.
+  intros HI Hes HB f Hf Hd.
+  destruct (snd_emits_slices W0 t0 es HI Hes HB f Hf Hd) as (off & E & S).
+  pose proof (slice_bounds _ _ _ S) as [B1 B2]. pose proof (len_nonneg (f_data f)) as B3.
+  replace (u32 (f_seq f - iss - 1)) with off; [exact S|].
+  rewrite E. unfold SeqnumP.seq_of, u32. change (2^30) with 1073741824 in HB.
+  change (2^32) with 4294967296. Z.div_mod_to_equations. lia.
+Qed.
+
+End Final.
